@@ -1,58 +1,204 @@
 // Package gptfacts extracts the facts the GPT/MBR models (C02, C09, C15) are pinned to.
+//
+// Offsets and limits are read SEMANTICALLY: wherever an integer is expected, any constant expression over
+// the package's integer constants is accepted (fx.EvalInt over fx.IntConsts), a slice of the entry buffer
+// that is handed to a same-package helper is followed into the helper (up to two levels) with the slice's
+// base offset added, and so is a local alias (`dst := b[56:]`).  Naming a constant, or moving a field's
+// encoding into a helper, therefore regenerates the same facts.
 package gptfacts
 
 import (
 	"go/ast"
 	"go/token"
-	"strconv"
 	"strings"
 
 	"verif/harness/internal/fx"
 )
 
+// env is the constant environment of the package being scanned (set by the Extract* functions).
+var env map[string]int64
+
+func withEnv(dir string) []*ast.File {
+	fs := fx.PkgFiles(dir)
+	env = fx.IntConsts(fs...)
+	return fs
+}
+
+// intLit evaluates a constant integer expression (a literal, a named constant of the package, 56+16, …).
 func intLit(e ast.Expr) (int64, bool) {
 	if e == nil {
 		return 0, false
 	}
-	if bl, ok := e.(*ast.BasicLit); ok && bl.Kind == token.INT {
-		v, err := strconv.ParseInt(bl.Value, 0, 64)
-		return v, err == nil
+	return fx.EvalInt(e, env)
+}
+
+// view is one function body seen as part of an encoder/decoder: which identifiers stand for the buffer and
+// at which base offset (b itself: 0; the parameter dst of a helper called with b[56:]: 56).
+type view struct {
+	body  ast.Node
+	bases map[string]int64
+}
+
+// sliceBase: e is `name`, `name[lo:]`, `name[lo:hi]` with name a buffer of the view and lo constant.
+func (v view) sliceBase(e ast.Expr) (int64, bool) {
+	switch x := e.(type) {
+	case *ast.ParenExpr:
+		return v.sliceBase(x.X)
+	case *ast.Ident:
+		b, ok := v.bases[x.Name]
+		return b, ok
+	case *ast.SliceExpr:
+		b, ok := v.sliceBase(x.X)
+		if !ok {
+			return 0, false
+		}
+		if x.Low == nil {
+			return b, true
+		}
+		lo, ok := intLit(x.Low)
+		return b + lo, ok
 	}
 	return 0, false
 }
 
-// sliceBounds lists, in source order and without repetitions, the x[lo:hi] expressions with literal bounds on identifier name inside n.
-func sliceBounds(n ast.Node, name string, skip func(*ast.SliceExpr) bool) [][2]int64 {
-	var out [][2]int64
-	seen := map[[2]int64]bool{}
-	if n == nil {
+// views returns fd's body with `name` as the buffer, the local aliases of constant-offset slices of it, and
+// (depth levels deep) the bodies of the same-package functions a slice of the buffer is handed to.
+func views(pkg []*ast.File, fd *ast.FuncDecl, bases map[string]int64, depth int) []view {
+	if fd == nil || fd.Body == nil {
+		return nil
+	}
+	v := view{body: fd.Body, bases: map[string]int64{}}
+	for k, b := range bases {
+		v.bases[k] = b
+	}
+	// local aliases: x := b[K:] / x := b[K:H]
+	ast.Inspect(fd.Body, func(n ast.Node) bool {
+		as, ok := n.(*ast.AssignStmt)
+		if !ok || len(as.Lhs) != len(as.Rhs) {
+			return true
+		}
+		for i, l := range as.Lhs {
+			id, ok := l.(*ast.Ident)
+			if !ok {
+				continue
+			}
+			if _, isSlice := as.Rhs[i].(*ast.SliceExpr); !isSlice {
+				continue
+			}
+			if _, known := v.bases[id.Name]; known {
+				continue
+			}
+			if b, ok := v.sliceBase(as.Rhs[i]); ok {
+				v.bases[id.Name] = b
+			}
+		}
+		return true
+	})
+	out := []view{v}
+	if depth <= 0 {
 		return out
 	}
-	ast.Inspect(n, func(x ast.Node) bool {
-		se, ok := x.(*ast.SliceExpr)
+	recv := ""
+	if fd.Recv != nil && len(fd.Recv.List) > 0 {
+		t := fd.Recv.List[0].Type
+		if s, ok := t.(*ast.StarExpr); ok {
+			t = s.X
+		}
+		if id, ok := t.(*ast.Ident); ok {
+			recv = id.Name
+		}
+	}
+	seen := map[*ast.FuncDecl]bool{fd: true}
+	ast.Inspect(fd.Body, func(n ast.Node) bool {
+		ce, ok := n.(*ast.CallExpr)
 		if !ok {
 			return true
 		}
-		id, ok := se.X.(*ast.Ident)
-		if !ok || id.Name != name {
+		var callee *ast.FuncDecl
+		switch f := ce.Fun.(type) {
+		case *ast.Ident:
+			callee = fx.FindFuncIn(pkg, "", f.Name)
+		case *ast.SelectorExpr: // a method of the same receiver type: p.putName(b[56:])
+			if _, isIdent := f.X.(*ast.Ident); isIdent && recv != "" {
+				callee = fx.FindFuncIn(pkg, recv, f.Sel.Name)
+			}
+		}
+		if callee == nil || callee.Body == nil || seen[callee] || callee.Type.Params == nil {
 			return true
 		}
-		lo, ok1 := intLit(se.Low)
-		hi, ok2 := intLit(se.High)
-		if !ok1 || !ok2 || (skip != nil && skip(se)) {
-			return true
+		// parameter names in order
+		var params []string
+		for _, fl := range callee.Type.Params.List {
+			if len(fl.Names) == 0 {
+				params = append(params, "_")
+			}
+			for _, nm := range fl.Names {
+				params = append(params, nm.Name)
+			}
 		}
-		k := [2]int64{lo, hi}
-		if !seen[k] {
-			seen[k] = true
-			out = append(out, k)
+		sub := map[string]int64{}
+		for i, a := range ce.Args {
+			if i >= len(params) {
+				break
+			}
+			if b, ok := v.sliceBase(a); ok {
+				sub[params[i]] = b
+			}
+		}
+		if len(sub) > 0 {
+			seen[callee] = true
+			out = append(out, views(pkg, callee, sub, depth-1)...)
 		}
 		return true
 	})
 	return out
 }
 
+// sliceBoundsV lists, in source order and without repetitions, the x[lo:hi] expressions with constant bounds on a
+// buffer of the views, as offsets into the root buffer.
+func sliceBoundsV(vs []view, skip func(*ast.SliceExpr) bool) [][2]int64 {
+	out := [][2]int64{}
+	seen := map[[2]int64]bool{}
+	for _, v := range vs {
+		ast.Inspect(v.body, func(x ast.Node) bool {
+			se, ok := x.(*ast.SliceExpr)
+			if !ok {
+				return true
+			}
+			id, ok := se.X.(*ast.Ident)
+			if !ok {
+				return true
+			}
+			base, ok := v.bases[id.Name]
+			if !ok {
+				return true
+			}
+			lo, ok1 := intLit(se.Low)
+			hi, ok2 := intLit(se.High)
+			if !ok1 || !ok2 || (skip != nil && skip(se)) {
+				return true
+			}
+			k := [2]int64{base + lo, base + hi}
+			if !seen[k] {
+				seen[k] = true
+				out = append(out, k)
+			}
+			return true
+		})
+	}
+	return out
+}
+
+// sliceBounds: the constant-bound slices of buffer `name` in fd and in the helpers it hands slices of it to.
+func sliceBounds(pkg []*ast.File, fd *ast.FuncDecl, name string, skip func(*ast.SliceExpr) bool) [][2]int64 {
+	return sliceBoundsV(views(pkg, fd, map[string]int64{name: 0}, 2), skip)
+}
+
+// constVal: a package-level integer constant (any constant expression), else a literal-valued ValueSpec of that name.
 func constVal(f *ast.File, name string) (int64, bool) {
+	if v, ok := env[name]; ok {
+		return v, true
+	}
 	var v int64
 	found := false
 	if f == nil {
@@ -75,9 +221,131 @@ func constVal(f *ast.File, name string) (int64, bool) {
 	return v, found
 }
 
+// linear evaluates e as c + k*loopVar: constants of the package, the loop variable, locals with a single
+// definition in body (`pos := 56 + i*2`), + - and multiplication by a constant.
+func linear(e ast.Expr, loopVar string, body ast.Node, depth int) (c, k int64, ok bool) {
+	if v, isConst := intLit(e); isConst {
+		return v, 0, true
+	}
+	switch x := e.(type) {
+	case *ast.ParenExpr:
+		return linear(x.X, loopVar, body, depth)
+	case *ast.CallExpr: // int(i), uint64(i)
+		if len(x.Args) == 1 {
+			if _, isIdent := x.Fun.(*ast.Ident); isIdent {
+				return linear(x.Args[0], loopVar, body, depth)
+			}
+		}
+	case *ast.Ident:
+		if x.Name == loopVar {
+			return 0, 1, true
+		}
+		if depth <= 0 || body == nil {
+			return 0, 0, false
+		}
+		var def ast.Expr
+		ndef := 0
+		ast.Inspect(body, func(n ast.Node) bool {
+			if as, isAs := n.(*ast.AssignStmt); isAs && len(as.Lhs) == len(as.Rhs) {
+				for i, l := range as.Lhs {
+					if id, isId := l.(*ast.Ident); isId && id.Name == x.Name {
+						def = as.Rhs[i]
+						ndef++
+					}
+				}
+			}
+			return true
+		})
+		if ndef == 1 {
+			return linear(def, loopVar, body, depth-1)
+		}
+	case *ast.BinaryExpr:
+		c1, k1, ok1 := linear(x.X, loopVar, body, depth)
+		c2, k2, ok2 := linear(x.Y, loopVar, body, depth)
+		if !ok1 || !ok2 {
+			return 0, 0, false
+		}
+		switch x.Op {
+		case token.ADD:
+			return c1 + c2, k1 + k2, true
+		case token.SUB:
+			return c1 - c2, k1 - k2, true
+		case token.MUL:
+			if k1 == 0 {
+				return c1 * c2, c1 * k2, true
+			}
+			if k2 == 0 {
+				return c1 * c2, k1 * c2, true
+			}
+		case token.SHL:
+			if k2 == 0 && c2 >= 0 && c2 < 32 {
+				return c1 << uint(c2), k1 << uint(c2), true
+			}
+		}
+	}
+	return 0, 0, false
+}
+
+// nameFacts finds, in the views of the entry encoder, the limit N of the first `len(x) > N` guard and the entry
+// offset at which UTF-16 unit i is stored: the PutUint16 whose destination slice starts at base + c + 2*i, i the
+// index variable of the enclosing range loop (`pos := 56 + i*2; PutUint16(b[pos:pos+2], u)`, or in a helper
+// called with b[56:]: `PutUint16(dst[i*2:], u)`).
+func nameFacts(vs []view) (limit, nameOff int64) {
+	limit, nameOff = -1, -1
+	for _, v := range vs {
+		ast.Inspect(v.body, func(n ast.Node) bool {
+			switch x := n.(type) {
+			case *ast.BinaryExpr:
+				if limit >= 0 {
+					return true
+				}
+				if x.Op == token.GTR && strings.HasPrefix(fx.Src(x.X), "len(") {
+					if c, ok := intLit(x.Y); ok {
+						limit = c
+					}
+				} else if x.Op == token.LSS && strings.HasPrefix(fx.Src(x.Y), "len(") { // N < len(x)
+					if c, ok := intLit(x.X); ok {
+						limit = c
+					}
+				} else if x.Op == token.GEQ && strings.HasPrefix(fx.Src(x.X), "len(") { // len(x) >= N+1
+					if c, ok := intLit(x.Y); ok {
+						limit = c - 1
+					}
+				}
+			case *ast.RangeStmt:
+				key, ok := x.Key.(*ast.Ident)
+				if !ok || key.Name == "_" || nameOff >= 0 {
+					return true
+				}
+				ast.Inspect(x.Body, func(m ast.Node) bool {
+					ce, ok := m.(*ast.CallExpr)
+					if !ok || len(ce.Args) != 2 || !strings.HasSuffix(fx.Src(ce.Fun), "PutUint16") {
+						return true
+					}
+					se, ok := ce.Args[0].(*ast.SliceExpr)
+					if !ok || se.Low == nil {
+						return true
+					}
+					base, ok := v.sliceBase(se.X)
+					if !ok {
+						return true
+					}
+					if c, k, ok := linear(se.Low, key.Name, x.Body, 3); ok && k == 2 && nameOff < 0 {
+						nameOff = base + c
+					}
+					return true
+				})
+			}
+			return true
+		})
+	}
+	return limit, nameOff
+}
+
 // ExtractCrash: order of the synced writes of Table.Write, the sync, and the content-error-only fallback of Read.
 func ExtractCrash() *fx.Group {
 	g := fx.NewGroup("GptCrash")
+	withEnv("partition/gpt")
 	f := fx.Parse("partition/gpt/table.go")
 	w := fx.FindFunc(f, "Table", "Write")
 	if w == nil {
@@ -193,6 +461,7 @@ func ExtractCrash() *fx.Group {
 // ExtractRead: what readGPTHeader slices and checks, and what loadEntries allocates.
 func ExtractRead() *fx.Group {
 	g := fx.NewGroup("GptRead")
+	gptPkg := withEnv("partition/gpt")
 	f := fx.Parse("partition/gpt/table.go")
 	rh := fx.FindFunc(f, "", "readGPTHeader")
 	if rh == nil {
@@ -214,7 +483,7 @@ func ExtractRead() *fx.Group {
 			}
 			return true
 		})
-		g.NatPairs("headerSlices", sliceBounds(rh.Body, "gpt", func(se *ast.SliceExpr) bool { return se == crcArg }))
+		g.NatPairs("headerSlices", sliceBounds(gptPkg, rh, "gpt", func(se *ast.SliceExpr) bool { return se == crcArg }))
 		if crcLo < 0 {
 			g.Missing("headerCrcRange")
 		} else {
@@ -244,28 +513,14 @@ func ExtractRead() *fx.Group {
 // ExtractCodec: field offsets of the GPT entry / header encoders and decoders and of the MBR layout.
 func ExtractCodec() *fx.Group {
 	g := fx.NewGroup("GptCodec")
+	gptPkg := withEnv("partition/gpt")
 	pf := fx.Parse("partition/gpt/partition.go")
 	tf := fx.Parse("partition/gpt/table.go")
 	if fd := fx.FindFunc(pf, "Partition", "toBytes"); fd != nil {
-		g.NatPairs("entryEncSlices", sliceBounds(fd.Body, "b", nil))
-		// the rune limit in `len(r) > N` and the name offset in `pos := N + i*2`
-		var limit, nameOff int64 = -1, -1
-		ast.Inspect(fd.Body, func(n ast.Node) bool {
-			switch x := n.(type) {
-			case *ast.BinaryExpr:
-				if x.Op == token.GTR && strings.HasPrefix(fx.Src(x.X), "len(") {
-					if v, ok := intLit(x.Y); ok && limit < 0 {
-						limit = v
-					}
-				}
-				if x.Op == token.ADD {
-					if v, ok := intLit(x.X); ok && strings.ReplaceAll(fx.Src(x.Y), " ", "") == "i*2" {
-						nameOff = v
-					}
-				}
-			}
-			return true
-		})
+		vs := views(gptPkg, fd, map[string]int64{"b": 0}, 2)
+		g.NatPairs("entryEncSlices", sliceBoundsV(vs, nil))
+		// the limit in `len(r) > N` and the entry offset of UTF-16 unit 0 of the name (see nameFacts)
+		limit, nameOff := nameFacts(vs)
 		if limit < 0 {
 			g.Missing("nameLimit")
 		} else {
@@ -280,7 +535,7 @@ func ExtractCodec() *fx.Group {
 		g.Missing("entryEncSlices")
 	}
 	if fd := fx.FindFunc(pf, "", "partitionFromBytes"); fd != nil {
-		g.NatPairs("entryDecSlices", sliceBounds(fd.Body, "b", nil))
+		g.NatPairs("entryDecSlices", sliceBounds(gptPkg, fd, "b", nil))
 	} else {
 		g.Missing("entryDecSlices")
 	}
@@ -290,10 +545,11 @@ func ExtractCodec() *fx.Group {
 		g.Missing("entrySize")
 	}
 	if fd := fx.FindFunc(tf, "Table", "toGPTBytes"); fd != nil {
-		g.NatPairs("headerEncSlices", sliceBounds(fd.Body, "b", nil))
+		g.NatPairs("headerEncSlices", sliceBounds(gptPkg, fd, "b", nil))
 	} else {
 		g.Missing("headerEncSlices")
 	}
+	mbrPkg := withEnv("partition/mbr")
 	mf := fx.Parse("partition/mbr/table.go")
 	for _, c := range []string{"partitionEntriesStart", "partitionEntriesCount", "signatureStart", "mbrSize", "partitionTableUUIDStart", "partitionTableUUIDEnd"} {
 		if v, ok := constVal(mf, c); ok {
@@ -309,12 +565,12 @@ func ExtractCodec() *fx.Group {
 	}
 	mp := fx.Parse("partition/mbr/partition.go")
 	if fd := fx.FindFunc(mp, "Partition", "toBytes"); fd != nil {
-		g.NatPairs("mbrEntryEncSlices", sliceBounds(fd.Body, "b", nil))
+		g.NatPairs("mbrEntryEncSlices", sliceBounds(mbrPkg, fd, "b", nil))
 	} else {
 		g.Missing("mbrEntryEncSlices")
 	}
 	if fd := fx.FindFunc(mp, "", "partitionFromBytes"); fd != nil {
-		g.NatPairs("mbrEntryDecSlices", sliceBounds(fd.Body, "b", nil))
+		g.NatPairs("mbrEntryDecSlices", sliceBounds(mbrPkg, fd, "b", nil))
 	} else {
 		g.Missing("mbrEntryDecSlices")
 	}
